@@ -2,10 +2,11 @@
 // cases and prints one line per case.  Each property registers one sub-command in its own file.
 //
 // Line protocol (stdout):
-//   #STAT <key> <int>                      distribution counters for the evidence file
-//   CASE <input> | <L1 observables> [| <L2 representation>]
-//   ORACLE-FAIL <class> | <input> | <what the implementation did> | <what the property demands>
-//   SAMPLE <text>                          a few human-readable cases for the evidence file
+//
+//	#STAT <key> <int>                      distribution counters for the evidence file
+//	CASE <input> | <L1 observables> [| <L2 representation>]
+//	ORACLE-FAIL <class> | <input> | <what the implementation did> | <what the property demands>
+//	SAMPLE <text>                          a few human-readable cases for the evidence file
 package main
 
 import (
@@ -187,7 +188,9 @@ func pickMove(r *rand.Rand, p *tak.Position, legal []tak.Move, policy int) tak.M
 	case 1: // stack building: prefer slides
 		want = func(m tak.Move) bool { return m.IsSlide() }
 	case 2: // walls and capstones
-		want = func(m tak.Move) bool { return m.Type == tak.PlaceStanding || m.Type == tak.PlaceCapstone || m.IsSlide() }
+		want = func(m tak.Move) bool {
+			return m.Type == tak.PlaceStanding || m.Type == tak.PlaceCapstone || m.IsSlide()
+		}
 	case 3: // edge hugging
 		n := int8(p.Size())
 		want = func(m tak.Move) bool { return m.X == 0 || m.Y == 0 || m.X == n-1 || m.Y == n-1 }
